@@ -188,7 +188,7 @@ impl<'de> Deserialize<'de> for OptionWrapper<Inventory> {
                                                 ErrorCode::E037,
                                                 "Inventory 'id' must not be blank".to_string(),
                                             );
-                                        } else if URI::try_from(value.as_ref()).is_err() {
+                                        } else if !is_uri(value.as_ref()) {
                                             self.result.warn(
                                                 WarnCode::W005,
                                                 format!(
@@ -1217,7 +1217,7 @@ impl<'de, 'a, 'b> DeserializeSeed<'de> for UserSeed<'a, 'b> {
                             } else {
                                 match map.next_value::<Cow<str>>() {
                                     Ok(value) => {
-                                        if URI::try_from(value.as_ref()).is_err() {
+                                        if !is_uri(value.as_ref()) {
                                             self.result.warn(WarnCode::W009,
                                                               format!("Inventory version {} user 'address' should be a URI. Found: {}",
                                                                       self.version, value));
@@ -1320,6 +1320,20 @@ impl<'a> DigestsAndPaths<'a> {
 
 /// The largest gap in the version sequence for which every missing version is reported individually
 const MAX_MISSING_VERSIONS_LISTED: u32 = 100;
+
+/// Returns true if the value is a URI. A URI has a scheme; a value without one is not handed to
+/// the parser, which panics on a schemeless value whose first path segment contains a colon.
+fn is_uri(value: &str) -> bool {
+    match value.split_once(':') {
+        Some((scheme, _)) => {
+            let mut chars = scheme.chars();
+            chars.next().map_or(false, |c| c.is_ascii_alphabetic())
+                && chars.all(|c| c.is_ascii_alphanumeric() || c == '+' || c == '-' || c == '.')
+                && URI::try_from(value).is_ok()
+        }
+        None => false,
+    }
+}
 
 fn validate_version_nums(version_nums: &BTreeSet<VersionNum>, result: &ParseValidationResult) {
     let mut padding = None;
